@@ -50,7 +50,7 @@ EXT = {
     'numpy.ndim': 'scalar', 'numpy.shape': 'scalar', 'numpy.isscalar': 'scalar', 'numpy.size': 'scalar',
     'numpy.allclose': 'scalar', 'numpy.array_equal': 'scalar', 'numpy.any': 'fresh', 'numpy.all': 'fresh',
     'numpy.argmax': 'fresh', 'numpy.argmin': 'fresh', 'numpy.save': 'scalar', 'numpy.iterable': 'scalar',
-    'numpy.issubdtype': 'scalar', 'numpy.finfo': 'scalar', 'numpy.dtype': 'scalar', 'numpy.float64': 'fresh',
+    'numpy.issubdtype': 'scalar', 'numpy.count_nonzero': 'scalar', 'numpy.finfo': 'scalar', 'numpy.dtype': 'scalar', 'numpy.float64': 'fresh',
     'numpy.errstate': 'scalar', 'numpy.seterr': 'scalar',
     # ---- numpy: always a new array
     'numpy.array': 'fresh',          # default copy=True (np.array(x, copy=False) is handled as 'view')
